@@ -32,7 +32,11 @@ RULE = ('Hypothesis rule-based state machine. Every history starts from a '
         'request has a name matching CUSTOM_[A-Z0-9_]+ in full, <= 255 long; '
         'new class ids are >= 10000 and not present before; creating an '
         'existing custom name is 204 (PUT) / 409 (POST), creating a new '
-        'well-formed one is 201; names are never duplicated. Non-trivial = a creation after a deletion or after a '
+        'well-formed one is 201; names are never duplicated. Second phase: '
+        '2-3 concurrent creations of one new name (PUT/POST class, PUT trait) '
+        'under every atomic insertion, sampled splits and free schedules of '
+        'engine C: exactly one 201, the others 204/409, one row, class id >= '
+        '10000 and unique. Non-trivial = a creation after a deletion or after a '
         'start-up over existing custom rows, a refused request on a standard '
         'name, a request with an ill-formed name, or a start-up that had rows '
         'to add; distinct = distinct history prefix.')
@@ -439,3 +443,90 @@ ASSUMPTIONS = C.ASSUMPTIONS[:2] + [
     'os_resource_classes libraries']
 
 C.standard_module(globals(), 'C19', PROFILE, 25, 400)
+
+
+# ------------------------------------------------------------------ races
+# "creating an existing name is idempotent (204) or a 409, never a duplicate"
+# also when the name came into existence a moment ago through a request
+# still in flight: 2-3 concurrent creations of one new name (PUT/POST
+# /resource_classes, PUT /traits), scheduled at transaction granularity by
+# engine C.  Oracle: exactly one racer answers 201 (it created the row), every
+# other one answers 204 (PUT) or 409 (POST), there is one row of that name
+# afterwards, a class id >= 10000 that no other class has.
+from pv import cgen as _cgen, engc as _engc   # noqa: E402
+from pv.runner import Violation as _Violation  # noqa: E402
+
+RACE_NAMES = ['CUSTOM_PV_RACE', 'CUSTOM_PV_RACE_2', 'CUSTOM_A']
+
+
+def name_race_case(draw, d):
+    kind = draw(st.sampled_from(['class', 'class', 'trait']))
+    table = d.classes if kind == 'class' else d.traits
+    free = [n for n in RACE_NAMES if n not in table]
+    if not free:
+        return None
+    name = draw(st.sampled_from(free))
+    n = draw(st.sampled_from([2, 2, 3]))
+    reqs = {}
+    for r in 'ABC'[:n]:
+        if kind == 'trait':
+            v = (1, draw(st.sampled_from([6, 20, 39])))
+            reqs[r] = gen.R('PUT', '/traits/' + name, v, None, 'put_trait',
+                            ['race'], name=name)
+        elif draw(st.booleans()):
+            v = (1, draw(st.sampled_from([7, 20, 39])))
+            reqs[r] = gen.R('PUT', '/resource_classes/' + name, v, None,
+                            'put_class', ['race'], name=name)
+        else:
+            v = (1, draw(st.sampled_from([2, 7, 39])))
+            reqs[r] = gen.R('POST', '/resource_classes', v, {'name': name},
+                            'post_class', ['race'], name=name)
+    return reqs
+
+
+def race_oracle(ctx, svc, snap, start, reqs, race, schedule):
+    _engc.no_server_error(reqs, race)
+    name = reqs['A']['name']
+    kind = 'trait' if reqs['A']['op'] == 'put_trait' else 'class'
+    st_ = {n: race.responses[n].status for n in sorted(reqs)}
+    created = [n for n, s in st_.items() if s == 201]
+    detail = {'name': name, 'statuses': st_}
+    if len(created) != 1:
+        raise _Violation({'clause': 'concurrent-creation-not-exactly-one-201',
+                          'kind': kind, 'created': len(created)}, detail)
+    for n, s in st_.items():
+        if n in created:
+            continue
+        want = (409,) if reqs[n]['op'] == 'post_class' else (204, 409)
+        if s not in want:
+            raise _Violation({'clause': 'create-existing-name-wrong-status-'
+                                        'under-race', 'kind': kind,
+                              'status': s}, detail)
+    final = race.final
+    table = final.classes if kind == 'class' else final.traits
+    rows = final.class_rows if kind == 'class' else final.trait_rows
+    if name not in table or rows != len(table):
+        raise _Violation({'clause': 'duplicate-or-missing-row-after-race',
+                          'kind': kind}, dict(detail, rows=rows))
+    if kind == 'class':
+        ids = sorted(final.classes.values())
+        if final.classes[name] < 10000 or len(set(ids)) != len(ids):
+            raise _Violation({'clause': 'custom-class-id-after-race'},
+                             dict(detail, id=final.classes[name]))
+
+
+_run_machine = run_worker      # noqa: F821
+_replay_machine = replay       # noqa: F821
+
+
+def run_worker(ctx):
+    _run_machine(ctx)
+    _engc.run_cases(ctx, name_race_case, race_oracle,
+                    examples=ctx.pick(2, 30), free=3, splits=6,
+                    max_providers=2)
+
+
+def replay(ctx, data):
+    if 'reqs' in data:
+        return _engc.replay(ctx, race_oracle, data)
+    return _replay_machine(ctx, data)
